@@ -1,8 +1,8 @@
 package zv
 
 import (
-	"strconv"
 	"go/token"
+	"strconv"
 	"strings"
 
 	"golang.org/x/tools/go/ssa"
